@@ -3,7 +3,7 @@ Abstraction of the emulator state to the reference terminal (`abs : Emu → Spec
 translation of the emulator's parsed operations to the reference vocabulary (`tokOf`), for C06.
 Core Lean only.
 -/
-import VaxisModel.Model.Emu
+import VaxisModel.Model.EmuState
 import VaxisModel.Spec.Term
 
 namespace VaxisModel.Model.EmuAbs
@@ -11,8 +11,8 @@ open VaxisModel.Model.Emu VaxisModel.Spec VaxisModel.Gen.TermModes
 
 /-- vaxis.Color → terminal colour: 0 = default, bit 24 = palette index, bit 25 = direct colour. -/
 def absCol (c : Nat) : Col :=
-  if c / indexedBit % 2 = 1 then .idx (c % 256)
-  else if c / rgbBit % 2 = 1 then .rgb (c / 65536 % 256) (c / 256 % 256) (c % 256)
+  if c / 2 ^ 24 % 2 = 1 then .idx (c % 256)
+  else if c / 2 ^ 25 % 2 = 1 then .rgb (c / 65536 % 256) (c / 256 % 256) (c % 256)
   else .default
 
 def hasBit (attr bit : Nat) : Bool := attr / bit % 2 = 1
